@@ -85,6 +85,7 @@ func main() {
 	var dl time.Time
 	if *deadline > 0 {
 		dl = start.Add(time.Duration(*deadline) * time.Second)
+		scen.RunDeadline = dl
 	}
 	for i, it := range items {
 		if p.Serial {
